@@ -1,3 +1,171 @@
-(** C11 - property theorems (statements only; proofs are in C11/Proofs.v). *)
-From Coq Require Import List Reals.
-From LinfaVerif Require Import Common.Num C11.Model C11.Proofs.
+(** C11 - property theorems (statements only; proofs are in Common/Convex.v and C11/Proofs.v).
+
+    Notation of the statements.  The design matrix is given by its feature columns [cols]
+    (each of length n = length y); [predictions cols n w b] = X w + b; [sse] = |y - X w - b|^2;
+    [enet_objective cols y penalty l1_ratio w b]
+       = 1/(2n) |y - X w - b|^2 + penalty * (l1_ratio |w|_1 + (1 - l1_ratio)/2 |w|_2^2),
+    the objective documented by linfa-elasticnet.  [RQ] / [RQ2] map rational data to the reals.
+    The checkers [ols_ok], [enet_ok], [enet_ok_fixed] (C11/Model.v) are the functions that every
+    run of `./check C11` evaluates by vm_compute on the implementation's outputs; [eps_of e2] is
+    sqrt e2, the tolerance whose square the checker was given. *)
+From Coq Require Import List QArith Qreals Reals.
+From LinfaVerif Require Import Common.Num Common.NdSum Common.QF Common.Convex C11.Model C11.Proofs.
+Import ListNotations.
+Local Open Scope R_scope.
+
+(** T1 (Common/Convex.v).  First-order conditions up to eps_j imply eps-optimality against EVERY other
+    coefficient vector, for 1/2 |y - sum_j theta_j col_j|^2 + sum_j (l1_j |theta_j| + l2_j/2 theta_j^2). *)
+Theorem kkt_eps_optimal : forall (cols : list (list R)) (y l1s l2s eps th th' : list R),
+  Forall (fun c => length c = length y) cols ->
+  kkt_all (map (fun c => Rdot c (residual cols y th)) cols) l1s l2s th eps ->
+  length th' = length th ->
+  objective cols y l1s l2s th' >= objective cols y l1s l2s th - Rdot eps (absdiff th' th).
+Proof. exact Convex.kkt_eps_optimal. Qed.
+
+(** T1.  Ordinary least squares, exact form: coefficients and intercept whose residual is orthogonal to
+    every feature column and to the constant column minimise the sum of squared errors. *)
+Theorem ols_optimal : forall (cols : list (list R)) (y w : list R) (b : R),
+  Forall (fun c => length c = length y) cols -> length w = length cols ->
+  let r := vsub y (predictions cols (length y) w b) in
+  Forall (fun c => Rdot c r = 0) cols -> Rsum r = 0 ->
+  forall (w' : list R) (b' : R), length w' = length w -> sse cols y w' b' >= sse cols y w b.
+Proof. exact Proofs.ols_optimal. Qed.
+
+(** T1.  Soundness of the OLS checker evaluated on every LinearRegression fit: acceptance certifies
+    that no other (w', b') has a sum of squared errors lower by more than the stated slack. *)
+Theorem ols_ok_sound : forall (cols : list (list Q)) (y w : list Q) (b : Q) (e2s : list Q) (e2b : Q),
+  ols_ok cols y w b e2s e2b = true -> (0 < length y)%nat ->
+  forall (w' : list R) (b' : R), length w' = length w ->
+  sse (RQ2 cols) (RQ y) w' b'
+  >= sse (RQ2 cols) (RQ y) (RQ w) (Q2R b)
+     - 2 * (Rdot (EPS e2s) (absdiff w' (RQ w)) + eps_of e2b * Rabs (b' - Q2R b)).
+Proof. exact Proofs.ols_ok_sound. Qed.
+
+Theorem ols_ok_noint_sound : forall (cols : list (list Q)) (y w : list Q) (e2s : list Q),
+  ols_ok_noint cols y w e2s = true -> (0 < length y)%nat ->
+  forall w' : list R, length w' = length w ->
+  sse (RQ2 cols) (RQ y) w' 0 >= sse (RQ2 cols) (RQ y) (RQ w) 0 - 2 * Rdot (EPS e2s) (absdiff w' (RQ w)).
+Proof. exact Proofs.ols_ok_noint_sound. Qed.
+
+(** T1.  Soundness of the elastic-net checker (lasso: l1_ratio = 1, ridge: l1_ratio = 0), JOINTLY in
+    coefficients and intercept, for the documented objective with l1 = n*penalty*l1_ratio and
+    l2 = n*penalty*(1 - l1_ratio): no perturbation of any coefficient or of the intercept lowers the
+    objective by more than (sum_j eps_j |w'_j - w_j| + eps_b |b' - b|) / n. *)
+Theorem enet_ok_sound : forall (cols : list (list Q)) (y w : list Q) (b l1 l2 : Q) (e2s : list Q) (e2b : Q)
+                               (penalty l1_ratio : R),
+  enet_ok cols y w b l1 l2 e2s e2b = true ->
+  Q2R l1 = INR (length y) * penalty * l1_ratio ->
+  Q2R l2 = INR (length y) * penalty * (1 - l1_ratio) ->
+  (0 < length y)%nat ->
+  forall (w' : list R) (b' : R), length w' = length w ->
+  enet_objective (RQ2 cols) (RQ y) penalty l1_ratio w' b'
+  >= enet_objective (RQ2 cols) (RQ y) penalty l1_ratio (RQ w) (Q2R b)
+     - (Rdot (EPS e2s) (absdiff w' (RQ w)) + eps_of e2b * Rabs (b' - Q2R b)) / INR (length y).
+Proof. exact Proofs.enet_ok_sound. Qed.
+
+(** T1.  The weaker certificate used for fits without intercept (b = 0) and for the known class of
+    finding F7 (b = mean y on un-centred features): w is eps-optimal for the given, fixed intercept. *)
+Theorem enet_ok_fixed_sound : forall (cols : list (list Q)) (y w : list Q) (b l1 l2 : Q) (e2s : list Q)
+                                     (penalty l1_ratio : R),
+  enet_ok_fixed cols y w b l1 l2 e2s = true ->
+  Q2R l1 = INR (length y) * penalty * l1_ratio ->
+  Q2R l2 = INR (length y) * penalty * (1 - l1_ratio) ->
+  (0 < length y)%nat ->
+  forall w' : list R, length w' = length w ->
+  enet_objective (RQ2 cols) (RQ y) penalty l1_ratio w' (Q2R b)
+  >= enet_objective (RQ2 cols) (RQ y) penalty l1_ratio (RQ w) (Q2R b)
+     - Rdot (EPS e2s) (absdiff w' (RQ w)) / INR (length y).
+Proof. exact Proofs.enet_ok_fixed_sound. Qed.
+
+(** T1.  Coefficients under the l1 threshold are zero: at any point that satisfies the coordinate
+    condition up to eps, a feature whose soft-threshold input x_j.(r + w_j x_j) = c + w_j*|x_j|^2 lies
+    under l1 by more than eps has coefficient exactly 0 ... *)
+Theorem threshold_zero : forall c l1 l2 q th eps : R, 0 <= q -> 0 <= l2 ->
+  coord_cond c l1 l2 th eps -> Rabs (c + th * q) < l1 - eps -> th = 0.
+Proof. exact Proofs.threshold_zero. Qed.
+
+(** ... and the coordinate update of the model (`w[j] = signum(tmp) * max(|tmp| - n*l1_ratio*penalty, 0) / (...)`,
+    replayed bit for bit against the implementation) returns exactly 0 there. *)
+Theorem cd_update_threshold : forall l1r pen nF tmp nj : R,
+  Rabs tmp <= nF * l1r * pen -> cd_new_w R_ops RX l1r pen nF tmp nj = 0.
+Proof. exact Proofs.cd_update_threshold. Qed.
+
+(** Finding F7.  The glue of ElasticNet::fit (intercept := mean y, coefficients := a minimiser for that
+    fixed intercept) does NOT give a joint minimiser on un-centred features: refuted by a witness
+    (x = 10..13, y = 1..4, penalty 0.1, l1_ratio 0.5) ... *)
+Theorem enet_intercept_refuted :
+  exists (cols : list (list R)) (y : list R) (penalty l1_ratio : R) (w : list R),
+    let ybar := Rsum y / INR (length y) in
+    (forall w' : list R, length w' = length w ->
+       enet_objective cols y penalty l1_ratio w' ybar >= enet_objective cols y penalty l1_ratio w ybar)
+    /\ exists (w' : list R) (b' : R),
+       enet_objective cols y penalty l1_ratio w' b' < enet_objective cols y penalty l1_ratio w ybar.
+Proof. exact Proofs.enet_intercept_refuted. Qed.
+
+(** ... while outside the known class (every feature column sums to zero) the same glue is jointly
+    optimal: exact first-order conditions in the coefficients for the intercept mean y suffice. *)
+Theorem enet_intercept_outside_known : forall (cols : list (list R)) (y : list R) (penalty l1_ratio : R) (w : list R),
+  Forall (fun c => length c = length y) cols -> length w = length cols -> (0 < length y)%nat ->
+  Forall (fun c => Rsum c = 0) cols ->
+  let n := INR (length y) in
+  let ybar := Rsum y / n in
+  kkt_all (map (fun c => Rdot c (vsub y (predictions cols (length y) w ybar))) cols)
+          (repeat (n * penalty * l1_ratio) (length cols)) (repeat (n * penalty * (1 - l1_ratio)) (length cols))
+          w (repeat 0 (length cols)) ->
+  forall (w' : list R) (b' : R), length w' = length w ->
+  enet_objective cols y penalty l1_ratio w' b' >= enet_objective cols y penalty l1_ratio w ybar.
+Proof. exact Proofs.enet_joint_centred. Qed.
+
+(** T2.  Weak duality of the reported gap.  [duality_gap R_ops RX ...] is the model of linfa's
+    `duality_gap` (the same Gallina term that is replayed bit for bit at binary64 against the
+    implementation), here over the reals and at the point w with its residual r = y - X w
+    (for fits with intercept, y is the centred target).  With P(v) = 1/2 |y - X v|^2 + l1 |v|_1 +
+    l2/2 |v|^2 the n-fold objective (l1 = l1_ratio*penalty*n, l2 = (1-l1_ratio)*penalty*n):
+    no other coefficient vector w' lowers P by more than the gap ... *)
+Theorem gap_upper_bound : forall (cc : bool) (l1r pen nF : R) (cols : list (list R)) (y w w' : list R),
+  Forall (fun c => length c = length y) cols -> length w = length cols -> length w' = length cols ->
+  0 <= l1r * pen * nF -> 0 <= (1 - l1r) * pen * nF ->
+  let p := length cols in
+  let P v := objective cols y (repeat (l1r * pen * nF) p) (repeat ((1 - l1r) * pen * nF) p) v in
+  P w - P w' <= duality_gap R_ops RX cc l1r pen nF cols y w (residual cols y w).
+Proof. exact Proofs.gap_upper_bound. Qed.
+
+(** ... and the gap is non-negative. *)
+Theorem gap_nonneg : forall (cc : bool) (l1r pen nF : R) (cols : list (list R)) (y w : list R),
+  Forall (fun c => length c = length y) cols -> length w = length cols ->
+  0 <= l1r * pen * nF -> 0 <= (1 - l1r) * pen * nF ->
+  0 <= duality_gap R_ops RX cc l1r pen nF cols y w (residual cols y w).
+Proof. exact Proofs.gap_nonneg. Qed.
+
+(** T2.  For all inputs: the coordinate update of the model (soft thresholding of tmp = x_j.(r + w_j x_j),
+    divided by |x_j|^2 + n(1-l1_ratio)penalty) solves the first-order condition of its coordinate exactly;
+    tmp - nj*w_new is the correlation x_j.r after the residual update. *)
+Theorem cd_update_kkt : forall l1r pen nF tmp nj : R,
+  0 <= nF * l1r * pen -> 0 <= nF * (1 - l1r) * pen -> 0 < nj + nF * (1 - l1r) * pen ->
+  let wn := cd_new_w R_ops RX l1r pen nF tmp nj in
+  coord_cond (tmp - nj * wn) (nF * l1r * pen) (nF * (1 - l1r) * pen) wn 0.
+Proof. exact Proofs.cd_update_kkt. Qed.
+
+(** T2 (Common/Convex.v).  Multi-task: first-order conditions of every row W_j of the coefficient matrix
+    (group soft-thresholding: |G_j - l1 W_j/|W_j|| <= eps_j, or |G_j| <= l1 + eps_j for a zero row) imply
+    eps-optimality against every other coefficient matrix, for
+      sum_k 1/2 |y_k - X w_k|^2 + l1 sum_j |W_j|_2 + l2/2 |W|_F^2   (n times the documented objective). *)
+Theorem group_kkt_eps_optimal : forall (cols Ys Ws Ws' : list (list R)) (l1 l2 : R) (eps : list R),
+  Forall (fun y => Forall (fun c => length c = length y) cols) Ys ->
+  length Ws = length Ys -> length Ws' = length Ys ->
+  Forall (fun w => length w = length cols) Ws -> Forall (fun w => length w = length cols) Ws' ->
+  0 <= l1 -> 0 <= l2 ->
+  group_all (trans (length cols) (corr_tasks cols Ys Ws)) (trans (length cols) Ws) l1 l2 eps ->
+  mobjective cols Ys l1 l2 Ws'
+  >= mobjective cols Ys l1 l2 Ws - Rdot eps (rowdist (trans (length cols) Ws') (trans (length cols) Ws)).
+Proof. exact Convex.group_kkt_eps_optimal. Qed.
+
+(** T2.  Soundness of the multi-task checker evaluated on every MultiTaskElasticNet fit (targets with the
+    returned intercepts subtracted): the returned matrix is eps-optimal for those intercepts. *)
+Theorem mtl_ok_sound : forall (cols Ys Ws : list (list Q)) (l1 l2 : Q) (e2s : list Q),
+  mtl_ok cols Ys Ws l1 l2 e2s = true ->
+  forall Ws' : list (list R), length Ws' = length Ys -> Forall (fun w => length w = length cols) Ws' ->
+  mobjective (RQ2 cols) (RQ2 Ys) (Q2R l1) (Q2R l2) Ws'
+  >= mobjective (RQ2 cols) (RQ2 Ys) (Q2R l1) (Q2R l2) (RQ2 Ws)
+     - Rdot (EPS e2s) (rowdist (trans (length cols) Ws') (trans (length cols) (RQ2 Ws))).
+Proof. exact Proofs.mtl_ok_sound. Qed.
